@@ -8,19 +8,20 @@
 pid=$1; vdir=$2; shift 2
 wt=${SEED_WT:-/tmp/seed}/$pid
 head=$(git -C /repo rev-parse HEAD)
+[ -d $wt ] || { mkdir -p $(dirname $wt); git -C /repo worktree add -q --detach $wt HEAD; }
 git -C $wt checkout -q --detach $head 2>/dev/null; git -C $wt checkout -q -- . 
 cd $wt
-echo "== demo on clean tree"; OMP_NUM_THREADS=1 /venv/bin/python $vdir/demo.py > /tmp/seed/demo_clean.log 2>&1; c1=$?; tail -1 /tmp/seed/demo_clean.log
+echo "== demo on clean tree"; OMP_NUM_THREADS=1 /venv/bin/python $vdir/demo.py > $wt.demo_clean.log 2>&1; c1=$?; tail -1 $wt.demo_clean.log
 if ! git apply --check $vdir/patch.diff 2>/dev/null; then echo "PATCH DOES NOT APPLY to current HEAD"; exit 3; fi
 git apply $vdir/patch.diff
-echo "== demo with patch"; OMP_NUM_THREADS=1 /venv/bin/python $vdir/demo.py > /tmp/seed/demo_patch.log 2>&1; c2=$?; tail -1 /tmp/seed/demo_patch.log
+echo "== demo with patch"; OMP_NUM_THREADS=1 /venv/bin/python $vdir/demo.py > $wt.demo_patch.log 2>&1; c2=$?; tail -1 $wt.demo_patch.log
 echo "demo clean exit=$c1 patched exit=$c2"
 if [ $# -gt 0 ]; then
   echo "== existing tests with patch: $@"
   OMP_NUM_THREADS=1 /venv/bin/python -m pytest -q -p no:cacheprovider --timeout=900 "$@" 2>&1 | tail -3
 fi
 echo "== ./check $pid against the patched worktree"
-cd /verif && TANGELO_REPO=$wt ./check $pid > /tmp/seed/check_$pid.log 2>&1; rc=$?
-grep "^VIOLATION\|^KNOWN" /tmp/seed/check_$pid.log | cut -c1-220 | head -8; tail -1 /tmp/seed/check_$pid.log
+cd /verif && TANGELO_REPO=$wt ./check $pid > $wt.check.log 2>&1; rc=$?
+grep "^VIOLATION\|^KNOWN" $wt.check.log | cut -c1-220 | head -8; tail -1 $wt.check.log
 echo "check exit=$rc"
 git -C $wt checkout -q -- .
